@@ -72,6 +72,7 @@ def chainStep (sb : Nat) (nmal : Nat) (p : Nat) (tag : String) (s : String) : Op
     | some q => .ok (q, "i")
     | none => .error "abort"
   else match s with
+  | "pi" | "ip" => some (arith .add 1) | "pd" | "dp" => some (arith .sub 1)   -- ++p, p++, --p, p-- (the variable afterwards)
   | "ci" => some (.ok (p, "i")) | "cc" => some (.ok (p, "c")) | "cpp" => some (.ok (p, "pp"))
   | "cst" => some (.ok (p, "st")) | "opq" => some (.ok (p, tag)) | "ad" => some (.ok (p, tag))
   | "ld" => if tag == "pp" then some (loadAt p) else none
@@ -100,10 +101,11 @@ def ownerOf (a : Nat) : Option Nat :=
 
 def fnameOf (owner rep : Nat) : String :=
   let (ln, fns) := libOf owner
-  if rep = 0 then "null"
-  else if 0x4000 ≤ rep ∧ rep < 0x4008 then s!"cb{owner}:{rep - 0x4000}"
-  else if rep ≤ fns.length then s!"{ln}.{fns.getD (rep - 1) "?"}"
-  else s!"cb{owner}:0"
+  match fnToApp fns.length 0x4000 8 rep with
+  | .null => "null"
+  | .cb k => s!"cb{owner}:{k}"
+  | .lib i => s!"{ln}.{fns.getD i "?"}"
+  | .other => s!"cb{owner}:0"
 
 /-- whole-array store: element by element in row-major order at the guest stride; any
 unrepresentable element aborts the store (the elements before it have been written) -/
@@ -165,6 +167,16 @@ def step (t : List String) : Option String :=
       let sb ← sb.toNat?; let rep ← rep.toNat?
       let owner ← ownerOf ((sbxOf sb).region.base + cellOff)
       pure s!"ok {fnameOf owner rep}"
+  | ["nrep", pos, rep] => do
+      -- a backend whose representation type is itself a pointer (8 bytes): 0 is null, anything else is clamped into the region
+      let rep ← rep.toNat?
+      let rN : Region := ⟨16, 0x6a0000000000 + 3 * Driver.PtrEng.stride⟩   -- the fourth sandbox of the harness
+      let a := toApp ⟨rN, 8⟩ (rep % 2 ^ 64)
+      let one := if a = 0 then "null" else s!"inN:{a - rN.base}"
+      match pos with
+      | "result" | "cbarg" | "cell" => pure s!"ok {one}"
+      | "arrel" => pure s!"ok {one},{one}"
+      | _ => none
   | ["fctx", pos, sb, rep] => do
       -- a function-pointer representation arriving with the sandbox context (call result, callback argument)
       let sb ← sb.toNat?; let rep ← rep.toNat?
@@ -216,9 +228,9 @@ def step (t : List String) : Option String :=
       let rep := ptrStore 16 4 cell a
       let w4 (m : Mem) (off v : Nat) : Mem := m.write off (encodeLE 4 v)
       let m ← match pos with
-        | "cell" => some (w4 patMem cellOff rep)
+        | "cell" => some (ptrStoreMem s cellOff a patMem)
         | "cellnull" => some (w4 patMem cellOff 0)
-        | "arrel" | "field" => some (w4 patMem (cellOff + 8) rep)
+        | "arrel" | "field" => some (ptrStoreMem s (cellOff + 8) a patMem)
         | "arrelnull" | "fieldnull" => some (w4 patMem (cellOff + 8) 0)
         | "arrwhole" => some (w4 (w4 (w4 (w4 patMem cellOff 0) (cellOff + 4) rep) (cellOff + 8) rep) (cellOff + 12) 0)
         | "structwhole" => some (w4 (w4 (patMem.write cellOff [120]) (cellOff + 4) 7) (cellOff + 8) rep)
